@@ -64,6 +64,35 @@ def ob_can_do(a0: bool, a1: bool, a2: bool, t0: bool, t1: bool, t2: bool, enable
     return "ok" if enabled else "ok-open"
 
 
+@obligation(funcs=["auth.Authenticator.can_do", "auth.Authenticator.parse_options"],
+            timeout=(150, 600), params=range(2),
+            bounds="ONE authenticator, two successive decisions for the same pubkey whose token roles differ (role change + "
+                   "re-authentication in between), plus a decision for another pubkey / an anonymous connection in between; "
+                   "action roles and both role sets = arbitrary subsets of {a,r,w}; PARAM = action {save, query}")
+def ob_can_do_after_role_change(a0: bool, a1: bool, a2: bool, t0: bool, t1: bool, t2: bool, u0: bool, u1: bool, u2: bool,
+                                other_anonymous: bool) -> str:
+    """
+    post: _.startswith("ok")
+    """
+    logging.disable(logging.CRITICAL)
+    action = ("save", "query")[PARAM % 2]
+    aroles = _set((a0, a1, a2))
+    first, second = _set((t0, t1, t2)), _set((u0, u1, u2))
+    a = auth.Authenticator(_St(), {"enabled": True, "actions": {action: "".join(sorted(aroles))}})
+    seq = [({"pubkey": "x", "roles": first}, first),
+           (None, set("a")) if other_anonymous else ({"pubkey": "y", "roles": second}, second),
+           ({"pubkey": "x", "roles": second}, second),
+           ({"pubkey": "x", "roles": first}, first)]
+    for i in range(len(seq)):
+        token, eff = seq[i]
+        got = _drive(a.can_do(token, action))
+        want = bool(aroles & eff)
+        if got != want:
+            return "decision %d: can_do(%r, %s) = %r with action roles %r, want %r (earlier decisions on this authenticator: %r)" % (
+                i, token, action, got, sorted(aroles), want, [t for t, _ in seq[:i]])
+    return "ok"
+
+
 class _Authn:
     def __init__(self, allow, enabled=True):
         self.allow = allow
